@@ -63,7 +63,8 @@ class Lex:
 
     def _token_type(self, word):
         token_type = TokenTypes.__members__.get(word.upper())
-        if token_type is not None:
+        if (token_type is not None and word.islower()
+                and not token_type.is_internal()):
             return token_type
         if word in self._REG_LIST:
             return TokenTypes.REGISTER
